@@ -104,6 +104,16 @@ class ClientRun:
             if k == "encrypt":
                 svc.handle_encrypt_database(dict(DB)); return "ok"
             got = []
+            fast = getattr(self, "fast", False)
+            if fast:
+                # the clean-up of the PREVIOUS connection is still pending (its delay has not elapsed): it ends shortly after this
+                # command has connected - commands issued back to back, as a script does
+                import frontend_env as _fe
+
+                async def _release():
+                    await asyncio.sleep(0.05)
+                    _fe._env["gate_closed"] = False
+                asyncio.ensure_future(_release())
             try:
                 if k == "upload_config":
                     await asyncio.wait_for(svc.handle_upload_config(wait=True, wait_callback_func=lambda f: None), 6)
@@ -113,6 +123,9 @@ class ClientRun:
                     await asyncio.wait_for(svc.handle_keyword_search(b"keyword", wait=True,
                                                                      wait_callback_func=lambda f: got.append(f.result())), 6)
             finally:
+                if fast:
+                    import frontend_env as _fe
+                    _fe._env["gate_closed"] = True          # this connection's clean-up waits for the next command
                 try:
                     await svc.close_service()
                 except Exception:
@@ -123,7 +136,8 @@ class ClientRun:
                         await svc.websocket.close()
                 except Exception:
                     pass
-                await self.settle()
+                if not fast:
+                    await self.settle()
             if k == "search":
                 r = svc.sse_module_loader.SSEResult.deserialize(got[0], svc.config_object).get_result_list()
                 return "result:correct" if r == DB[b"keyword"] else "result:WRONG"
@@ -233,8 +247,59 @@ def correspond(ctx):
                 _v(res, "the key file changed after it was first created", f"[{c}]: key ids {keys_seen}", s)
     finally:
         fe.teardown()
+    fast_histories(ctx, res)
     commands_layer(ctx, res)
     return res
+
+
+def fast_histories(ctx, res):
+    """the same histories with the commands issued BACK TO BACK: every network command connects while the clean-up of the previous
+    connection is still pending (the server's one-second grace period has not elapsed).  Timing must not change what is accepted,
+    what is persisted or what a search returns: judged against the 5-flag reference."""
+    import frontend_env as fe
+    import srvproto
+    env = fe.setup(cleanup_delay=0.0)
+    try:
+        fx = srvproto.Fixture()
+        rng = ctx.rng
+        WF = [("create", 1), ("key",), ("encrypt",), ("upload_config",), ("upload_edb",), ("search",)]
+        seqs = [list(WF) + [("search",), ("upload_edb",), ("search",)],
+                [("create", 1), ("upload_config",), ("key",), ("upload_config",), ("encrypt",), ("upload_edb",), ("search",), ("upload_edb",), ("search",)]]
+        pool, _, _ = sequences(ctx)
+        longer = [q for q in pool if len(q) >= 5]
+        rng.shuffle(longer)
+        seqs += longer[:ctx.pick(25, 200)]
+
+        async def main():
+            out = []
+            async with fe.Server() as srv:
+                for s in seqs:
+                    run = ClientRun(env, fx)
+                    run.fast = True
+                    obs = []
+                    for c in s:
+                        o = await run.cmd(c)
+                        obs.append(o + " | " + run.state())
+                    fe._env["gate_closed"] = False
+                    await run.settle()
+                    out.append(obs)
+            fe._env["gate_closed"] = False
+            return out
+        got = asyncio.run(main())
+        for s, g in zip(seqs, got):
+            res.evaluations += 1
+            res.count("back-to-back histories")
+            c = " ; ".join(" ".join(map(str, x)) for x in s)
+            for (o_ref, word), o in zip(reference(s), g):
+                outcome, state = o.split(" | ")
+                fields = dict(x.split("=") for x in state.split(" "))
+                if outcome != o_ref or (word is not None and fields["bits"] != str(word)):
+                    _v(res, "back-to-back commands: accepted operations / persisted flags differ from the 5-flag reference",
+                       f"[{c}] with every network command connecting before the previous connection's clean-up has ended: observed '{o}', reference ({o_ref}, flags {word})", s)
+                    break
+    finally:
+        fe._env["gate_closed"] = False
+        fe.teardown()
 
 
 NAMES = ["alice", "alice ", " alice", "Alice", "bob", "", "\u00e4lice", "alice\t", "a" * 40, "bob  "]
